@@ -25,7 +25,7 @@ type NameOpts struct {
 
 var plainComps = []string{"a", "b", "c", "d", "x", "y", "f", "lib", "test", "src", "main.go", "README", "a1", "z9", "ab", "ad", "da", "d0", "Makefile", "util.c", "x_y", "v1.2"}
 var spaceComps = []string{"my file.txt", "a b", "d d", "y z", "new folder", "x  y", "a b c"}
-var parenComps = []string{"..notes", "...", "..cache", "HEAD", "index", "config", "refs", "objects", "logs", "a\\b", "back\\slash.txt", "100%", "%s.txt", "Readme", "readme", "SRC", strings.Repeat("n", 120), strings.Repeat("w", 244), strings.Repeat("w", 250), strings.Repeat("w", 255), "a(b", "d(1)", "f(2).txt", "a+b", "c++", "x+y.z", "(x)", "lib-old", "d-old", "d.c", "test.c", "test-data", "lib.go", "a.b", "aXb", "d-a", "d-b"}
+var parenComps = []string{"40000 bytes.txt", "140000 rows.csv", "100644 x", "040000 d", "..notes", "...", "..cache", "HEAD", "index", "config", "refs", "objects", "logs", "a\\b", "back\\slash.txt", "100%", "%s.txt", "Readme", "readme", "SRC", strings.Repeat("n", 120), strings.Repeat("w", 244), strings.Repeat("w", 250), strings.Repeat("w", 255), "a(b", "d(1)", "f(2).txt", "a+b", "c++", "x+y.z", "(x)", "lib-old", "d-old", "d.c", "test.c", "test-data", "lib.go", "a.b", "aXb", "d-a", "d-b"}
 var metaComps = []string{"[x]", "a*b", "q?", "p|q", "^s", "e$", "{k}", "a{2}", "x[0]", "a.*", "(?i)a", "a)b", "d+"}
 var nonASCII = []string{"é", "日本", "ß", "café", "naïve.txt", "файл", "語", "caf\xe9.txt", "caf\xe8.txt", "\xff\xfe", "na\xefve", "\u00e9\xe9"}
 
@@ -292,6 +292,20 @@ func Message(r *rand.Rand, counter int) (string, string) {
 		}
 		return u + " " + strings.Repeat("x", 4096-len(u)-1), "line-4096"
 	case 18:
+		switch r.IntN(4) {
+		case 0:
+			// a commit object beyond 64 KiB whose message has MANY lines (a reader that keeps slices of a refilled buffer mixes them up)
+			var b strings.Builder
+			b.WriteString(u + " subject: import the generated tables\n\n")
+			for i := 0; i < 30; i++ {
+				b.WriteString(fmt.Sprintf("line %02d ", i) + strings.Repeat(string(rune('a'+i%26)), 3000) + "\n")
+			}
+			b.WriteString("last line")
+			return b.String(), "multi-line-90KB"
+		case 1:
+			// line feeds at the very end are part of the message
+			return u + pick(r, []string{" ends with one line feed\n", " ends with two line feeds\n\n", " body\n\nends with three\n\n\n"}), "trailing-line-feeds"
+		}
 		return u + " subject\n\n" + strings.Repeat("y", 5000) + "\nend", "line-5000"
 	case 19:
 		if r.IntN(2) == 0 {
